@@ -181,7 +181,10 @@ fn codec_rt_signature() {
 // harness, structure bytes concrete, field bytes symbolic):
 //     (A)  x.serialize() == Ok(enc(x))            -- byte-exact wire format
 //     (B)  T::deserialize(enc(x)) == Ok(x)
-// which together give deserialize(serialize(x)) == Ok(x).  u16 thresholds are restricted to < 128 (one varint
+// which together give deserialize(serialize(x)) == Ok(x).  These harnesses run with unwind 5 (the B-tree and
+// Vec loops whose bounds CBMC cannot resolve are unwound blindly up to the bound, cost ~ bound^3 per BTreeMap
+// drop site) and therefore stub the private run-time CRC-32 `serialization::short_id` by its value (see
+// common::stub_short_id; the real function is covered by codec_header_keypackage).  u16 thresholds are restricted to < 128 (one varint
 // byte) in these harnesses; the full u16 varint range is covered by the complete KeyPackage harness and by
 // the direct-form harnesses of the thorough tier.
 // ---------------------------------------------------------------------------------------------
@@ -253,7 +256,8 @@ fn vss(v: Vec<E>) -> frost_core::keys::VerifiableSecretSharingCommitment<Toy251>
 
 // @harness name=codec_ab_secret_share_len2 props=C12 kind=bounded bound="commitment length 2" tier=quick backs="SecretShare: serialize(x) == enc(x) = hdr|id|share|len|c0|c1 and deserialize(enc(x)) == Ok(x), all ids / shares / non-identity commitments" expect=pass
 #[kani::proof]
-#[kani::unwind(8)]
+#[kani::unwind(5)]
+#[kani::stub(frost_core::serialization::short_id, stub_short_id)]
 #[kani::stub(zeroize::barrier::optimization_barrier, noop_barrier)]
 fn codec_ab_secret_share_len2() {
     let (i, s, c0, c1) = (any_s_nz(), any_s(), any_e_nz(), any_e_nz());
@@ -263,7 +267,8 @@ fn codec_ab_secret_share_len2() {
 
 // @harness name=codec_ab_secret_share_len01 props=C12 kind=bounded bound="commitment lengths 0 and 1" tier=quick backs="SecretShare wire format + decode, as codec_ab_secret_share_len2" expect=pass
 #[kani::proof]
-#[kani::unwind(8)]
+#[kani::unwind(5)]
+#[kani::stub(frost_core::serialization::short_id, stub_short_id)]
 #[kani::stub(zeroize::barrier::optimization_barrier, noop_barrier)]
 fn codec_ab_secret_share_len01() {
     let (i, s, c0) = (any_s_nz(), any_s(), any_e_nz());
@@ -298,7 +303,8 @@ fn pkp2_enc_none(a: E, b: E, k: E) -> [u8; 11] {
 
 // @harness name=codec_enc_public_key_package props=C12,C13 kind=bounded bound="2 entries with the concrete keys 1, 2; min_signers = Some(t), t < 128, and None" tier=quick backs="PublicKeyPackage lemma (A): serialize(x) == hdr|n|(id,vs)*|vk|1|t; None is encoded by OMITTING the field (pre-3.0 format)" expect=pass
 #[kani::proof]
-#[kani::unwind(8)]
+#[kani::unwind(5)]
+#[kani::stub(frost_core::serialization::short_id, stub_short_id)]
 fn codec_enc_public_key_package() {
     let (a, b, k, t) = (any_e_nz(), any_e_nz(), any_e_nz(), any_small_u16());
     let x = pkp2(a, b, k, Some(t));
@@ -311,7 +317,8 @@ fn codec_enc_public_key_package() {
 
 // @harness name=codec_dec_public_key_package_some props=C12,C13 kind=bounded bound="2 entries with the concrete keys 1, 2; min_signers = Some(t), t < 128" tier=thorough backs="PublicKeyPackage lemma (B) (custom Deserialize, serialization.rs:259-490): deserialize(enc(x)) == Ok(x)" expect=pass
 #[kani::proof]
-#[kani::unwind(8)]
+#[kani::unwind(5)]
+#[kani::stub(frost_core::serialization::short_id, stub_short_id)]
 fn codec_dec_public_key_package_some() {
     let (a, b, k, t) = (any_e_nz(), any_e_nz(), any_e_nz(), any_small_u16());
     let x = pkp2(a, b, k, Some(t));
@@ -321,7 +328,8 @@ fn codec_dec_public_key_package_some() {
 
 // @harness name=codec_dec_public_key_package_none props=C12,C13 kind=bounded bound="2 entries with the concrete keys 1, 2; threshold absent" tier=thorough backs="PublicKeyPackage lemma (B), legacy format: an encoding without threshold decodes to the value with min_signers == None" expect=pass
 #[kani::proof]
-#[kani::unwind(8)]
+#[kani::unwind(5)]
+#[kani::stub(frost_core::serialization::short_id, stub_short_id)]
 fn codec_dec_public_key_package_none() {
     let (a, b, k) = (any_e_nz(), any_e_nz(), any_e_nz());
     let x = pkp2(a, b, k, None);
@@ -331,7 +339,8 @@ fn codec_dec_public_key_package_none() {
 
 // @harness name=codec_enc_public_key_package_small props=C12,C13 kind=bounded bound="0 and 1 entries (key 1); min_signers = Some(t < 128) and None" tier=quick backs="PublicKeyPackage lemma (A), small maps" expect=pass
 #[kani::proof]
-#[kani::unwind(8)]
+#[kani::unwind(5)]
+#[kani::stub(frost_core::serialization::short_id, stub_short_id)]
 fn codec_enc_public_key_package_small() {
     let (a, k, t) = (any_e_nz(), any_e_nz(), any_small_u16());
     let x = pkp1(a, k, Some(t));
@@ -347,7 +356,8 @@ fn codec_enc_public_key_package_small() {
 
 // @harness name=codec_dec_public_key_package_small props=C12,C13 kind=bounded bound="0 entries with Some(t < 128); 1 entry (key 1) with None" tier=thorough backs="PublicKeyPackage lemma (B), small maps" expect=pass
 #[kani::proof]
-#[kani::unwind(8)]
+#[kani::unwind(5)]
+#[kani::stub(frost_core::serialization::short_id, stub_short_id)]
 fn codec_dec_public_key_package_small() {
     let (a, k, t) = (any_e_nz(), any_e_nz(), any_small_u16());
     let x = pkp1(a, k, None);
@@ -386,7 +396,8 @@ fn sp1_enc(d1: E, e1: E, msg: [u8; 1]) -> [u8; 16] {
 
 // @harness name=codec_enc_signing_package props=C12 kind=bounded bound="2 entries (concrete keys 1, 2), message length 2" tier=quick backs="SigningPackage lemma (A): serialize(x) == hdr|n|(id|hdr|D|E)*|mlen|msg, all commitment values and message bytes" expect=pass
 #[kani::proof]
-#[kani::unwind(8)]
+#[kani::unwind(5)]
+#[kani::stub(frost_core::serialization::short_id, stub_short_id)]
 fn codec_enc_signing_package() {
     let (d1, e1, d2, e2) = (any_e_nz(), any_e_nz(), any_e_nz(), any_e_nz());
     let msg: [u8; 2] = kani::any();
@@ -397,7 +408,8 @@ fn codec_enc_signing_package() {
 
 // @harness name=codec_dec_signing_package props=C12 kind=bounded bound="2 entries (concrete keys 1, 2), message length 2" tier=thorough backs="SigningPackage lemma (B): deserialize(enc(x)) == Ok(x)" expect=pass
 #[kani::proof]
-#[kani::unwind(8)]
+#[kani::unwind(5)]
+#[kani::stub(frost_core::serialization::short_id, stub_short_id)]
 fn codec_dec_signing_package() {
     let (d1, e1, d2, e2) = (any_e_nz(), any_e_nz(), any_e_nz(), any_e_nz());
     let msg: [u8; 2] = kani::any();
@@ -408,7 +420,8 @@ fn codec_dec_signing_package() {
 
 // @harness name=codec_enc_signing_package_small props=C12 kind=bounded bound="(entries, message length) in {(0,0), (1,1)}" tier=quick backs="SigningPackage lemma (A), small shapes" expect=pass
 #[kani::proof]
-#[kani::unwind(8)]
+#[kani::unwind(5)]
+#[kani::stub(frost_core::serialization::short_id, stub_short_id)]
 fn codec_enc_signing_package_small() {
     let (d1, e1) = (any_e_nz(), any_e_nz());
     let msg: [u8; 1] = kani::any();
@@ -422,7 +435,8 @@ fn codec_enc_signing_package_small() {
 
 // @harness name=codec_dec_signing_package_small props=C12 kind=bounded bound="(entries, message length) = (1,1)" tier=thorough backs="SigningPackage lemma (B), small shape" expect=pass
 #[kani::proof]
-#[kani::unwind(8)]
+#[kani::unwind(5)]
+#[kani::stub(frost_core::serialization::short_id, stub_short_id)]
 fn codec_dec_signing_package_small() {
     let (d1, e1) = (any_e_nz(), any_e_nz());
     let msg: [u8; 1] = kani::any();
@@ -433,7 +447,8 @@ fn codec_dec_signing_package_small() {
 
 // @harness name=codec_ab_dkg_round1_package props=C12 kind=bounded bound="commitment length 2" tier=quick backs="keys::dkg::round1::Package: serialize(x) == hdr|len|c*|2|R|z (proof of knowledge as length-prefixed Signature bytes) and deserialize(enc(x)) == Ok(x)" expect=pass
 #[kani::proof]
-#[kani::unwind(8)]
+#[kani::unwind(5)]
+#[kani::stub(frost_core::serialization::short_id, stub_short_id)]
 #[kani::stub(std::fmt::format, stub_format)]
 fn codec_ab_dkg_round1_package() {
     let (c0, c1, r, z) = (any_e_nz(), any_e_nz(), any_e_nz(), any_s());
@@ -447,7 +462,8 @@ fn codec_ab_dkg_round1_package() {
 
 // @harness name=codec_ab_dkg_round1_package_len1 props=C12 kind=bounded bound="commitment length 1" tier=quick backs="keys::dkg::round1::Package wire format + decode" expect=pass
 #[kani::proof]
-#[kani::unwind(8)]
+#[kani::unwind(5)]
+#[kani::stub(frost_core::serialization::short_id, stub_short_id)]
 #[kani::stub(std::fmt::format, stub_format)]
 fn codec_ab_dkg_round1_package_len1() {
     let (c0, r, z) = (any_e_nz(), any_e_nz(), any_s());
@@ -457,7 +473,8 @@ fn codec_ab_dkg_round1_package_len1() {
 
 // @harness name=codec_ab_dkg_round1_secret_package props=C12,C13 kind=bounded bound="coefficients length 2, commitment length 2; min_signers, max_signers < 128" tier=quick backs="keys::dkg::round1::SecretPackage (state kept between DKG rounds; NO header on the wire): serialize(x) == id|n|coef*|m|comm*|min|max and deserialize(enc(x)) == Ok(x)" expect=pass
 #[kani::proof]
-#[kani::unwind(8)]
+#[kani::unwind(5)]
+#[kani::stub(frost_core::serialization::short_id, stub_short_id)]
 #[kani::stub(zeroize::barrier::optimization_barrier, noop_barrier)]
 fn codec_ab_dkg_round1_secret_package() {
     let (i, a0, a1, c0, c1) = (any_s_nz(), any_s(), any_s(), any_e_nz(), any_e_nz());
@@ -474,7 +491,8 @@ fn codec_ab_dkg_round1_secret_package() {
 // |commitment| == |coefficients| - 1.
 // @harness name=codec_ab_dkg_round1_secret_package_refresh props=C13 kind=bounded bound="(coefficients, commitment) lengths (2,1) and (3,2); min_signers, max_signers < 128" tier=quick backs="refresh_dkg_part1 state: dkg::round1::SecretPackage whose commitment lacks the identity entry: wire format + decode" expect=pass
 #[kani::proof]
-#[kani::unwind(8)]
+#[kani::unwind(5)]
+#[kani::stub(frost_core::serialization::short_id, stub_short_id)]
 #[kani::stub(zeroize::barrier::optimization_barrier, noop_barrier)]
 fn codec_ab_dkg_round1_secret_package_refresh() {
     let (i, a1, a2, c1, c2) = (any_s_nz(), any_s(), any_s(), any_e_nz(), any_e_nz());
@@ -491,7 +509,8 @@ fn codec_ab_dkg_round1_secret_package_refresh() {
 
 // @harness name=codec_ab_dkg_round2_secret_package props=C12,C13 kind=bounded bound="commitment length 2; min_signers, max_signers < 128" tier=quick backs="keys::dkg::round2::SecretPackage (state kept between DKG rounds; no header): serialize(x) == id|m|comm*|share|min|max and deserialize(enc(x)) == Ok(x)" expect=pass
 #[kani::proof]
-#[kani::unwind(8)]
+#[kani::unwind(5)]
+#[kani::stub(frost_core::serialization::short_id, stub_short_id)]
 #[kani::stub(zeroize::barrier::optimization_barrier, noop_barrier)]
 fn codec_ab_dkg_round2_secret_package() {
     let (i, c0, c1, s) = (any_s_nz(), any_e_nz(), any_e_nz(), any_s());
@@ -596,7 +615,8 @@ fn codec_header_negctl() {
 // canonicity to fixed-size encodings; stated here so that it is not mistaken for a gap).
 // @harness name=codec_pkp_threshold_tail_lenient props=C12 kind=bounded bound="1 map entry (key 1); tail of 0..=2 arbitrary bytes after the verifying key" tier=thorough backs="PublicKeyPackage::deserialize: a decode error of the optional threshold is swallowed into min_signers == None; never Err" expect=pass
 #[kani::proof]
-#[kani::unwind(8)]
+#[kani::unwind(5)]
+#[kani::stub(frost_core::serialization::short_id, stub_short_id)]
 fn codec_pkp_threshold_tail_lenient() {
     let (a, k) = (any_e_nz(), any_e_nz());
     let t: [u8; 2] = kani::any();
